@@ -57,6 +57,9 @@ func init() {
 	o["specialAdd"] = func() url.ParserOption {
 		return url.WithSpecialSchemes(map[string]string{"ftp": "21", "file": "", "http": "80", "https": "443", "ws": "80", "wss": "443", "sc": "99", "gopher": "70"})
 	}
+	o["specialGopher"] = func() url.ParserOption { // the table of the Semantic profile
+		return url.WithSpecialSchemes(map[string]string{"ftp": "21", "file": "", "http": "80", "https": "443", "ws": "80", "wss": "443", "gopher": "70"})
+	}
 	o["specialMany"] = func() url.ParserOption {
 		return url.WithSpecialSchemes(map[string]string{"ftp": "21", "file": "", "http": "80", "https": "443", "ws": "80", "wss": "443", "gopher": "70", "a": "", "sc": "x"})
 	}
